@@ -391,6 +391,20 @@ def greedy_run(case):
             vs.append(violation("score_differs_from_objective_of_labels", dict(ctx, score=sc, objective=final), **base))
     except Exception as e:  # noqa
         vs.append(violation("score_raises", dict(ctx, error=repr(e)), **base))
+    # the fitted estimator as a worker / a stored file hands it back: the recorded gains still add up to the score of ITS partition
+    from mc import transport
+    kind_ = transport.pick((data_spec, kernel_kind, sorted(params.items(), key=str)))
+    try:
+        cp_ = transport.roundtrip(model, kind_)
+        lab_c = cp_.predict(X)
+        sc_c = cp_.score(X, Kmat)
+        if not np.array_equal(lab_c, model.labels_) or abs(sc_c - (root + float(sum(cp_.tree_.gains)))) > tol * 10 or abs(ref.objective(lab_c, Kmat) - sc_c) > tol:
+            used_ds = any(c[8]["left_target"] >= c[3] and c[8]["right_target"] >= c[3] for c in calls if c[8]["leaf"] >= 0 and c[8]["gain"] > 0)
+            vs.append(violation("final_score_is_not_root_plus_gains", dict(ctx, after=kind_, labels=model.labels_, copy_predicts=lab_c, root=root, final=sc_c,
+                                                                          sum_gains=float(sum(cp_.tree_.gains))),
+                                involves_double_star=bool(used_ds), returned_family="double_star" if used_ds else "n/a", **dict(base, transport=kind_)))
+    except Exception as e:  # noqa
+        vs.append(violation("score_raises", dict(ctx, after=kind_, error=repr(e)[:200]), **base))
     # stop reason: last call must be a refusal (gain<=0), or a structural limit was hit
     if calls:
         last = calls[-1][8]
